@@ -3,6 +3,8 @@ CONSTANTS
   Sent <- Sent4
   Prefix = 4
   Cap = 100
+  MaxGiveUps = 0
+  ResumeAfterTimeout = FALSE
   EofYieldsShort = FALSE
   MaxPend = 2
 INVARIANT OutIsPrefixOfSent
